@@ -189,3 +189,20 @@ Theorem C04_source_effects2 :
   (forall q r k refs a b i, peq (src_store_response q r k refs a b i) (store_response q r k refs a b i)).
 Proof. exact tie_store_response. Qed.
 Print Assumptions C04_source_effects2.
+
+(* ... and the ranking of VaryHeadersMatch — the order the references are sorted in (the comparator closure handed to
+   slices.SortFunc), where `best` starts, when the scan moves it, and the test in the return statement — is re-derived from
+   internal/varymatcher.go on this run (Generated/SrcVary.v): the model's vary_headers_match is the sort by the source's
+   comparator followed by the scan with the source's step *)
+From HC.Generated Require Import SrcVary.
+From HC.Proofs Require Import TieVary.
+Theorem C04_source_ranking :
+  (forall a b, (src_ref_cmp a b <=? 0) = ref_le a b) /\
+  (forall a b, src_ref_cmp a b = - src_ref_cmp b a) /\
+  (forall refs h, vary_headers_match refs h =
+     match src_scan (isort (fun a b => src_ref_cmp a b <=? 0) refs) h 0 None with
+     | None => None
+     | Some i => Some (isort (fun a b => src_ref_cmp a b <=? 0) refs, i)
+     end).
+Proof. exact (conj tie_ref_cmp (conj src_ref_cmp_antisym tie_vary_headers_match)). Qed.
+Print Assumptions C04_source_ranking.
